@@ -280,7 +280,8 @@ def gen_form(rng: random.Random, cfg=None) -> Form:
                 if tt and rng.random() < 0.5:
                     r.cells["repeat_count"] = f"${{{rng.choice(tt).name}}}"
                 elif tt and rng.random() < 0.5:
-                    r.cells["repeat_count"] = f"${{{rng.choice(tt).name}}} + 1"
+                    a, b = rng.choice(tt).name, rng.choice(tt).name
+                    r.cells["repeat_count"] = rng.choice([f"${{{a}}} + 1", f"${{{a}}} + ${{{b}}}", f"${{{a}}} * ${{{b}}}", f"${{{a}}} div 2 + ${{{b}}}", f"2 * ${{{a}}}"])
                 else:
                     r.cells["repeat_count"] = str(rng.randint(1, 5))
             if r.kind == "group" and rng.random() < cfg["p_appearance"]:
